@@ -56,8 +56,22 @@ def gen_cases(rng, tier):
         Minv = np.linalg.inv(M)
         frames = []
         base = [_tetra(rng) * bond for _ in range(nc)]
+        # satellite-species atoms that belong to no centre (another molecule of the same element), listed BEFORE the bonded ones
+        decoys = []
+        for _try in range(40 if rng.random() < 0.5 else 0):
+            q = [rng.random() for _ in range(3)]
+            far = True
+            for c in centres:
+                dv = np.array([(q[k] - c[k] + 0.5) % 1 - 0.5 for k in range(3)]) @ M
+                # all 27 neighbouring images, generously
+                if min(np.linalg.norm(dv + np.array([i, j, l]) @ M) for i in (-1, 0, 1) for j in (-1, 0, 1) for l in (-1, 0, 1)) < 2.6 * bond:
+                    far = False
+            if far:
+                decoys.append([int(round(x * DEN)) % DEN for x in q])
+                if len(decoys) == 2:
+                    break
         for t in range(T):
-            cents, sats = [], []
+            cents, sats = [], [list(dq) for dq in decoys]
             for c in range(nc):
                 cc = [(centres[c][k] + 0.003 * t * (k + 1)) % 1 for k in range(3)]
                 cents.append([int(round(x * DEN)) % DEN for x in cc])
